@@ -218,7 +218,7 @@ class CallListerVisitor(ast.NodeVisitor):
             self.process_Call(node)
 
     def process_parameters(self, args, main=False):
-        for arg in args.args:
+        for arg in getattr(args, 'posonlyargs', []) + args.args:
             name = get_param(arg)
             self.namespace[name] = Arg(name) if main else Unknown(arg)
         if sys.version_info > (3,):
